@@ -89,6 +89,8 @@ func c16Shapes() []c16Shape {
 		mk("3-blocks", 1, 3, 0, 0, false),
 		mk("5-blocks/subset-every-2", 7, 5, 1, 2, false),
 		mk("8-blocks", 3, 8, 0, 0, false),
+		// more than nine pieces at the small sizes: piece 10 sorts before piece 2 by name
+		mk("12-blocks", 21, 12, 0, 0, false),
 	}
 	// a block whose DAG has more objects than the accumulator's initial child buffer (5000): 3 entries
 	// with 1700 transactions each, between two small blocks
